@@ -2,13 +2,18 @@ import Qentem.Model.FmtSpec
 import Qentem.Model.StrToNum
 import Qentem.Model.Round
 import Qentem.Proofs.StrToNumC11
+import Qentem.Proofs.StrToNumText
+import Qentem.Proofs.StrToNumSmall
+import Qentem.Proofs.NumToStrIdent
+import Qentem.Props.C09
+import Qentem.Props.C11
 /-! C11, parser half — interface definitions shared by the parser area (C09) and the formatter
 area (C10/C11).
 
 * `parseDouble` — `Digit::StringToNumber` on a whole text, followed by the conversion every caller
   applies to an integer result (`double(q.Natural)`, `double(q.Integer)`: hardware
   round-to-nearest-even, i.e. `nearestMag v 1`).
-* `Text17` — the shapes `%.17g` produces (sign is `-` or nothing, never `+`).
+* `Text17` — the shapes `%.17g` produces (sign is `-` or nothing, never `+`), defined at the end of this file.
 * `Margin32 num den` — the exact value `num/den` is at least 1/32 unit in the last place away from
   every rounding boundary (half-way point) of binary64.
 The parser-side theorem is `parseDouble t = FmtSpec.readBits64 t` for `Text17 t` under `Margin32`;
@@ -31,25 +36,632 @@ def Margin32 (num den : Nat) : Prop :=
   32 * ((roundPair num den).1 % (roundPair num den).2) + (roundPair num den).2 ≤ 16 * (roundPair num den).2 ∨
   17 * (roundPair num den).2 ≤ 32 * ((roundPair num den).1 % (roundPair num den).2)
 
-def allDigits (l : List Nat) : Prop := ∀ x ∈ l, 48 ≤ x ∧ x ≤ 57
+open Qentem.Props.C09 Qentem.Proofs.NumToStr Qentem.Proofs.Ident
 
-/-- the `%.17g` shapes (after trailing-zero stripping); `sg` is `[]` or `[45]` -/
+theorem margin32_iff (num den : Nat) : Margin32 num den ↔ MarginPair (roundPair num den).1 (roundPair num den).2 := Iff.rfl
+
+/-- the sign prefix as a list -/
+def sgOf (neg : Bool) : List Nat := if neg then [45] else []
+
+theorem signed_eq (neg : Bool) (body : List Nat) : FmtSpec.signed neg body = sgOf neg ++ body := by
+  cases neg <;> simp [FmtSpec.signed, sgOf, FmtSpec.cMinus]
+
+theorem sgOf_cases (neg : Bool) : sgOf neg = [] ∨ sgOf neg = [43] ∨ sgOf neg = [45] := by
+  cases neg <;> simp [sgOf]
+
+theorem sgOf_dec (neg : Bool) : decide (sgOf neg = [45]) = neg := by cases neg <;> simp [sgOf]
+
+theorem sgOf_len (neg : Bool) : (sgOf neg).length = b2n neg := by cases neg <;> simp [sgOf, b2n]
+
+theorem allDigits_fmt {l : List Nat} (h : AllDigits l) : ∀ c ∈ l, FmtSpec.isDigit c = true := by
+  intro c hc; rw [fmt_isDigit_eq]; exact h c hc
+
+/-- `readBits64` of a signed decimal body that `readCore` understands -/
+theorem readBits64_signed (neg : Bool) (body : List Nat) (x : Nat) (rest : List Nat) (hbody : body = x :: rest)
+    (hx : 48 ≤ x ∧ x ≤ 57) (num den : Nat) (hden : 0 < den)
+    (hrc : readCore neg body = some (neg, num, den)) :
+    FmtSpec.readBits64 (FmtSpec.signed neg body) = some ((if neg then 2 ^ 63 else 0) + nearestMag num den) := by
+  have hnm : ∀ r, body ≠ 45 :: r := by
+    intro r h; rw [hbody] at h; simp only [List.cons.injEq] at h; omega
+  unfold FmtSpec.readBits64 FmtSpec.readBits
+  have h1 : FmtSpec.signed neg body ≠ FmtSpec.inf := by
+    rw [signed_eq, hbody]; cases neg <;> simp [sgOf, FmtSpec.inf] <;> omega
+  have h2 : FmtSpec.signed neg body ≠ FmtSpec.cMinus :: FmtSpec.inf := by
+    rw [signed_eq, hbody]; cases neg <;> simp [sgOf, FmtSpec.inf, FmtSpec.cMinus] <;> omega
+  rw [if_neg h1, if_neg h2, readDecimal_signed neg body hnm, hrc]
+  simp only
+  rw [nearestBits_eq neg num den hden]
+
+/-- the parser result as a double: a `Real` that consumed the whole text -/
+theorem parseDouble_real (t : List Nat) (p : Nat) (neg : Bool) (hp : p < 2 ^ 63)
+    (h : strToNum t 0 t.length = some ⟨.real, p ||| (if neg then 0x8000000000000000 else 0), t.length⟩) :
+    parseDouble t = some ((if neg then 2 ^ 63 else 0) + p) := by
+  unfold parseDouble
+  rw [h]
+  simp only [if_true]
+  rw [or_sign_add p neg hp]
+
+/-- **`%.17g` fixed notation with a fraction** (`ddd.ddd`): under the margin the parser returns the
+correctly rounded double. -/
+theorem parse_exact_fixed (neg : Bool) (d1 : Nat) (xs ys : List Nat) (h1 : isNonZeroDigit d1 = true)
+    (hxs : AllDigits xs) (hys : AllDigits ys) (hy0 : ys ≠ []) (hy48 : ys ≠ [48]) (hlen : xs.length + ys.length ≤ 17)
+    (hm : Margin32 (decVal (d1 :: xs ++ ys)) (10 ^ ys.length)) :
+    parseDouble (FmtSpec.signed neg (d1 :: xs ++ [46] ++ ys)) =
+      FmtSpec.readBits64 (FmtSpec.signed neg (d1 :: xs ++ [46] ++ ys)) := by
+  have hdig := isNonZeroDigit_isDigit h1
+  have hd1r : 48 ≤ d1 ∧ d1 ≤ 57 := by simp [isDigit] at hdig; omega
+  have hf : d1 ≠ 45 ∧ d1 ≠ 43 := by omega
+  have hall : AllDigits (d1 :: (xs ++ ys)) := by
+    intro y hy
+    simp only [List.mem_cons, List.mem_append] at hy
+    rcases hy with h | h | h
+    · subst h; exact hdig
+    · exact hxs y h
+    · exact hys y h
+  -- reference side
+  have hrc : readCore neg (d1 :: xs ++ [46] ++ ys) = some (neg, decVal (d1 :: xs ++ ys), 10 ^ ys.length) := by
+    have := readCore_plain neg (d1 :: xs) ys (by simp) (allDigits_fmt (fun y hy => by
+      rcases List.mem_cons.1 hy with h | h
+      · subst h; exact hdig
+      · exact hxs y h)) (allDigits_fmt hys)
+    simp only [hy0, if_false] at this
+    rw [← digitsValue_eq]
+    simpa using this
+  rw [readBits64_signed neg (d1 :: xs ++ [46] ++ ys) d1 (xs ++ [46] ++ ys) (by simp) hd1r _ _ (Nat.pow_pos (by decide)) hrc]
+  -- parser side
+  rw [signed_eq]
+  have hylen : 0 < ys.length := by cases ys with
+    | nil => exact absurd rfl hy0
+    | cons a b => simp
+  generalize ht : sgOf neg ++ (d1 :: xs ++ [46] ++ ys) = t
+  have htl : t.length = (sgOf neg).length + 1 + xs.length + 1 + ys.length := by
+    rw [← ht]; simp; omega
+  have hsl : (sgOf neg).length ≤ 1 := by rw [sgOf_len]; cases neg <;> simp [b2n]
+  have he : t.length < 2 ^ 32 := by omega
+  have hu : unitsAt t t.length 0 (sgOf neg ++ (d1 :: xs ++ [46] ++ ys)) := by rw [ht]; exact unitsAt_self t
+  have hu' := (unitsAt_append t t.length (sgOf neg) (d1 :: xs ++ [46] ++ ys) 0).1 hu
+  have hu1 : unitsAt t t.length 0 (sgOf neg ++ [d1]) :=
+    (unitsAt_append t t.length (sgOf neg) [d1] 0).2 ⟨hu'.1, hu'.2.1, trivial⟩
+  have hQ : 0 + (sgOf neg).length + 1 + xs.length + 1 + ys.length = t.length := by omega
+  have hstr : strToNum t 0 t.length = some ⟨.real, nearestMag (decVal (d1 :: xs ++ ys)) (10 ^ ys.length) |||
+      (if neg then 0x8000000000000000 else 0), t.length⟩ := by
+    rw [strToNum_after_sign t 0 t.length (sgOf neg) d1 (sgOf_cases neg) hu1 hf, sgOf_dec]
+    rw [afterSign_frac t t.length neg (0 + (sgOf neg).length) d1 xs ys he h1 hxs hys hy0 hy48 hlen hu'.2 (Or.inl hQ)]
+    rw [finishReal_end t t.length neg _ _ _ _ false true _ (by omega) (Or.inl hQ) (xs.length + 1 + ys.length) ys.length
+      (by simp only [b2n, Bool.not_false, Bool.and_self, if_true]
+          rw [sub32_sub32 _ _ 1 (by omega) (by omega)]; omega)
+      (by simp only [Bool.false_eq_true, if_false, if_true]
+          rw [sub32_sub32 _ _ 1 (by omega) (by omega)]; omega)
+      (by omega)]
+    have hne : netExp false 0 false ys.length = (ys.length, true) := by
+      unfold netExp; simp; omega
+    rw [hne, hQ]
+    have hv0 : 0 < decVal (d1 :: (xs ++ ys)) :=
+      Nat.lt_of_lt_of_le (Nat.pow_pos (by decide)) (decVal_ge d1 (xs ++ ys) h1)
+    have hvhi := decVal_lt_pow (d1 :: (xs ++ ys)) hall
+    have hv64 : decVal (d1 :: (xs ++ ys)) < 2 ^ 64 :=
+      Nat.lt_of_lt_of_le hvhi (Nat.le_trans (Nat.pow_le_pow_right (by decide) (by simp; omega)) (by decide : (10 : Nat) ^ 19 ≤ 2 ^ 64))
+    have hv10 : 10 ≤ decVal (d1 :: (xs ++ ys)) := by
+      have := decVal_ge d1 (xs ++ ys) h1
+      have h10 : 10 ^ 1 ≤ 10 ^ (xs ++ ys).length := Nat.pow_le_pow_right (by decide) (by simp; omega)
+      omega
+    have := realResult_exact neg (decVal (d1 :: (xs ++ ys))) (xs.length + 1 + ys.length) ys.length true t.length hv0 hv64
+      (by omega) (by omega) (by simp only [if_true]; omega)
+      (fun _ => Or.inl ⟨by omega, by
+        have : ys.length / 27 = 0 := by omega
+        rw [this]; omega⟩)
+      (by simp only [if_true]; exact hm)
+    simpa using this
+  exact parseDouble_real t _ neg (Nat.lt_of_le_of_lt (nearestMag_le_inf _ _) (by decide)) hstr
+
+theorem margin32_scale (n d c : Nat) (hn : 0 < n) (hd : 0 < d) (hc : 0 < c) : Margin32 (n * c) (d * c) ↔ Margin32 n d := by
+  unfold Margin32
+  rw [roundPair_scale n d c hn hd hc]
+  exact MarginPair_scale _ _ c hc
+
+/-- the reference reader's fraction `(num, den)` for mantissa `v`, `f` fraction digits and exponent
+`±k`, and this area's normalised `(N, D)` (`v·10^X / 1` or `v / 10^X`) differ by a common factor -/
+theorem frac_link (v f k : Nat) (eneg : Bool) :
+    ∃ c, 0 < c ∧
+      (if eneg then v else v * 10 ^ k) =
+        (if (netExp false k eneg f).2 then v else v * 10 ^ (netExp false k eneg f).1) * c ∧
+      (if eneg then 10 ^ f * 10 ^ k else 10 ^ f) =
+        (if (netExp false k eneg f).2 then 10 ^ (netExp false k eneg f).1 else 1) * c := by
+  unfold netExp
+  cases eneg with
+  | false =>
+    simp only [Bool.false_and, Bool.false_eq_true, if_false]
+    by_cases h : k ≥ f
+    · simp only [h, if_true, Bool.false_eq_true, if_false]
+      refine ⟨10 ^ f, Nat.pow_pos (by decide), ?_, by simp⟩
+      rw [Nat.mul_assoc, ← Nat.pow_add]; congr 2; omega
+    · simp only [h, if_false, if_true]
+      refine ⟨10 ^ k, Nat.pow_pos (by decide), rfl, ?_⟩
+      rw [← Nat.pow_add]; congr 1; omega
+  | true =>
+    by_cases hk : k = 0
+    · subst hk
+      simp only [Bool.true_and, Bool.false_or, ne_eq, not_true_eq_false, decide_false, Bool.false_eq_true, if_false,
+        if_true, Nat.pow_zero, Nat.mul_one, ge_iff_le, Nat.le_zero_eq]
+      by_cases hf : f = 0
+      · subst hf; simp
+      · simp only [hf, if_false, if_true]
+        exact ⟨1, by decide, by simp, by simp⟩
+    · simp only [Bool.true_and, Bool.false_or, ne_eq, hk, not_false_eq_true, decide_true, if_true]
+      refine ⟨1, by decide, by simp, ?_⟩
+      rw [Nat.mul_one, ← Nat.pow_add]; congr 1; omega
+
+/-- common tail of the real shapes: from `strToNum t = realResult …` to `parseDouble t = readBits64 t` -/
+theorem parse_exact_of_realResult (t : List Nat) (neg : Bool) (v n X : Nat) (FLAG : Bool) (num den : Nat)
+    (hstr : strToNum t 0 t.length = realResult neg v n X FLAG t.length)
+    (href : FmtSpec.readBits64 t = some ((if neg then 2 ^ 63 else 0) + nearestMag num den))
+    (hv0 : 0 < v) (hv : v < 2 ^ 64) (hn19 : n ≤ 19) (hX : X < 2 ^ 31)
+    (hlink : ∃ c, 0 < c ∧ num = (if FLAG then v else v * 10 ^ X) * c ∧ den = (if FLAG then 10 ^ X else 1) * c)
+    (hrange : if FLAG then X ≤ n + 324 else X + n ≤ 309)
+    (hcond : FLAG = true → (X < 216 ∧ 2 ^ (X / 27) ≤ 2 * v) ∨ 2 ^ (X / 27 + 1) ≤ v)
+    (hm : Margin32 num den) :
+    parseDouble t = FmtSpec.readBits64 t := by
+  obtain ⟨c, hc, hnum, hden⟩ := hlink
+  have hNpos : 0 < (if FLAG then v else v * 10 ^ X) := by
+    split
+    · exact hv0
+    · exact Nat.mul_pos hv0 (Nat.pow_pos (by decide))
+  have hDpos : 0 < (if FLAG then 10 ^ X else 1) := by
+    split
+    · exact Nat.pow_pos (by decide)
+    · decide
+  have hmag : nearestMag num den = (if FLAG then nearestMag v (10 ^ X) else nearestMag (v * 10 ^ X) 1) := by
+    rw [hnum, hden, nearestMag_scale _ _ c hNpos hDpos hc]
+    cases FLAG <;> simp
+  have hm' : if FLAG then MarginPair (roundPair v (10 ^ X)).1 (roundPair v (10 ^ X)).2
+      else MarginPair (roundPair (v * 10 ^ X) 1).1 (roundPair (v * 10 ^ X) 1).2 := by
+    rw [hnum, hden, margin32_scale _ _ c hNpos hDpos hc] at hm
+    cases FLAG
+    · simp only [Bool.false_eq_true, if_false] at hm ⊢; exact hm
+    · simp only [if_true] at hm ⊢; exact hm
+  rw [href, hmag]
+  have hres := realResult_exact neg v n X FLAG t.length hv0 hv hn19 hX hrange hcond hm'
+  rw [← hstr] at hres
+  exact parseDouble_real t _ neg (by
+    split
+    · exact Nat.lt_of_le_of_lt (nearestMag_le_inf _ _) (by decide)
+    · exact Nat.lt_of_le_of_lt (nearestMag_le_inf _ _) (by decide)) hres
+
+/-- the parser on a scientific text `d[.ddd]e±kk`: the mantissa scan, then the exponent -/
+theorem strToNum_sci_eq (neg : Bool) (d1 : Nat) (ys : List Nat) (eneg : Bool) (ks : List Nat)
+    (h1 : isNonZeroDigit d1 = true) (hys : AllDigits ys) (hy48 : ys ≠ [48]) (hlen : ys.length ≤ 16)
+    (hks : AllDigits ks) (hk0 : ks ≠ []) (hk8 : ks.length ≤ 8) (t : List Nat)
+    (ht : t = sgOf neg ++ ([d1] ++ (if ys = [] then [] else 46 :: ys) ++ 101 :: (if eneg then 45 else 43) :: ks)) :
+    strToNum t 0 t.length =
+      realResult neg (decVal (d1 :: ys)) (1 + ys.length) (netExp false (decVal ks) eneg ys.length).1
+        (netExp false (decVal ks) eneg ys.length).2 t.length := by
+  have hdig := isNonZeroDigit_isDigit h1
+  have hf : d1 ≠ 45 ∧ d1 ≠ 43 := by simp [isDigit] at hdig; omega
+  have hsl : (sgOf neg).length ≤ 1 := by rw [sgOf_len]; cases neg <;> simp [b2n]
+  have hklen : 0 < ks.length := by cases ks with
+    | nil => exact absurd rfl hk0
+    | cons a b => simp
+  by_cases hy : ys = []
+  · subst hy
+    simp only [if_true, List.append_nil, List.length_nil, Nat.add_zero] at ht ⊢
+    cases eneg with
+    | false =>
+      -- d e + ks
+      have ht' : t = sgOf neg ++ (d1 :: [] ++ [101] ++ [43] ++ ks) := by rw [ht]; simp
+      have htl : t.length = (sgOf neg).length + 1 + 0 + 1 + 1 + ks.length := by rw [ht']; simp; omega
+      have he : t.length < 2 ^ 32 := by omega
+      have hu : unitsAt t t.length 0 (sgOf neg ++ (d1 :: [] ++ [101] ++ [43] ++ ks)) := by rw [← ht']; exact unitsAt_self t
+      have hu' := (unitsAt_append t t.length (sgOf neg) _ 0).1 hu
+      have hu1 : unitsAt t t.length 0 (sgOf neg ++ [d1]) :=
+        (unitsAt_append t t.length (sgOf neg) [d1] 0).2 ⟨hu'.1, hu'.2.1, trivial⟩
+      rw [strToNum_after_sign t 0 t.length (sgOf neg) d1 (sgOf_cases neg) hu1 hf, sgOf_dec]
+      rw [afterSign_exp_pos t t.length neg (0 + (sgOf neg).length) d1 [] 101 [43] ks he h1 (by intro y hy; simp at hy)
+        (by simp) (Or.inl rfl) (Or.inr rfl) hks hk0 hk8 hu'.2 (Or.inl (by simp; omega))]
+      have hne : netExp false (decVal ks) false 0 = (decVal ks, false) := by unfold netExp; simp
+      rw [hne]
+      simp only [List.length_nil, List.length_singleton]
+      congr 1 <;> omega
+    | true =>
+      have ht' : t = sgOf neg ++ (d1 :: [] ++ [101] ++ [45] ++ ks) := by rw [ht]; simp
+      have htl : t.length = (sgOf neg).length + 1 + 0 + 1 + 1 + ks.length := by rw [ht']; simp; omega
+      have he : t.length < 2 ^ 32 := by omega
+      have hu : unitsAt t t.length 0 (sgOf neg ++ (d1 :: [] ++ [101] ++ [45] ++ ks)) := by rw [← ht']; exact unitsAt_self t
+      have hu' := (unitsAt_append t t.length (sgOf neg) _ 0).1 hu
+      have hu1 : unitsAt t t.length 0 (sgOf neg ++ [d1]) :=
+        (unitsAt_append t t.length (sgOf neg) [d1] 0).2 ⟨hu'.1, hu'.2.1, trivial⟩
+      rw [strToNum_after_sign t 0 t.length (sgOf neg) d1 (sgOf_cases neg) hu1 hf, sgOf_dec]
+      rw [afterSign_exp_neg t t.length neg (0 + (sgOf neg).length) d1 [] 101 ks he h1 (by intro y hy; simp at hy)
+        (by simp) (Or.inl rfl) hks hk0 hk8 hu'.2 (Or.inl (by simp; omega))]
+      have hne : netExp false (decVal ks) true 0 = (decVal ks, decide (decVal ks ≠ 0)) := by
+        unfold netExp
+        by_cases hk : decVal ks = 0
+        · simp [hk]
+        · simp [hk]
+      rw [hne]
+      simp only [List.length_nil]
+      congr 1 <;> omega
+  · -- d . ys e ± ks
+    have hylen : 0 < ys.length := by cases ys with
+      | nil => exact absurd rfl hy
+      | cons a b => simp
+    simp only [hy, if_false] at ht
+    have ht' : t = sgOf neg ++ (d1 :: [] ++ [46] ++ ys) ++ [101] ++ ([if eneg then 45 else 43] ++ ks) := by
+      rw [ht]; simp
+    have htl : t.length = (sgOf neg).length + 1 + 0 + 1 + ys.length + 1 + 1 + ks.length := by rw [ht']; simp; omega
+    have he : t.length < 2 ^ 32 := by omega
+    have hu : unitsAt t t.length 0 (sgOf neg ++ (d1 :: [] ++ [46] ++ ys) ++ [101] ++ ([if eneg then 45 else 43] ++ ks)) := by
+      rw [← ht']; exact unitsAt_self t
+    have hA := (unitsAt_append t t.length (sgOf neg ++ (d1 :: [] ++ [46] ++ ys) ++ [101]) _ 0).1 hu
+    have hB := (unitsAt_append t t.length (sgOf neg ++ (d1 :: [] ++ [46] ++ ys)) [101] 0).1 hA.1
+    have hu' := (unitsAt_append t t.length (sgOf neg) (d1 :: [] ++ [46] ++ ys) 0).1 hB.1
+    have hu1 : unitsAt t t.length 0 (sgOf neg ++ [d1]) :=
+      (unitsAt_append t t.length (sgOf neg) [d1] 0).2 ⟨hu'.1, hu'.2.1, trivial⟩
+    have hQm : rd t t.length (0 + (sgOf neg).length + 1 + 0 + 1 + ys.length) = some 101 := by
+      have := hB.2.1
+      simp only [List.length_append, List.length_cons, List.length_nil] at this
+      rw [show 0 + (sgOf neg).length + 1 + 0 + 1 + ys.length = 0 + ((sgOf neg).length + (0 + 1 + (0 + 1) + ys.length)) by omega]
+      exact this
+    have hexpu : unitsAt t t.length (0 + (sgOf neg).length + 1 + 0 + 1 + ys.length + 1) ([if eneg then 45 else 43] ++ ks) := by
+      have := hA.2
+      simp only [List.length_append, List.length_cons, List.length_nil] at this
+      rw [show 0 + (sgOf neg).length + 1 + 0 + 1 + ys.length + 1 =
+        0 + ((sgOf neg).length + (0 + 1 + (0 + 1) + ys.length) + (0 + 1)) by omega]
+      exact this
+    rw [strToNum_after_sign t 0 t.length (sgOf neg) d1 (sgOf_cases neg) hu1 hf, sgOf_dec]
+    rw [afterSign_frac t t.length neg (0 + (sgOf neg).length) d1 [] ys he h1 (by intro y hy; simp at hy) hys hy hy48
+      (by simp; omega) hu'.2 (Or.inr ⟨101, by simpa using hQm, by decide, by decide⟩)]
+    have hes : [if eneg then 45 else 43] = [] ∨ [if eneg then 45 else 43] = [43] ∨ [if eneg then 45 else 43] = [45] := by
+      cases eneg <;> simp
+    have hdec : decide ([if eneg then 45 else 43] = [45]) = eneg := by cases eneg <;> simp
+    have hfin : 0 + (sgOf neg).length + 1 + ([] : List Nat).length + 1 + ys.length + 1 + [if eneg then 45 else 43].length + ks.length = t.length := by
+      simp; omega
+    rw [finishReal_exp t t.length neg _ _ _ _ false true _ 101 [if eneg then 45 else 43] ks
+      (by simpa using hQm) (Or.inl rfl) (by omega) he hes hks hk0 hk8 (by simpa using hexpu)
+      (Or.inl (by simp; omega)) (1 + ys.length) ys.length
+      (by simp only [b2n, Bool.not_false, Bool.and_self, if_true, List.length_nil]
+          rw [sub32_sub32 _ _ 1 (by omega) (by omega)]; omega)
+      (by simp only [Bool.false_eq_true, if_false, if_true, List.length_nil]
+          rw [sub32_sub32 _ _ 1 (by omega) (by omega)]; omega)
+      (by omega)]
+    rw [hdec]
+    congr 1
+
+/-- **`%.17g` scientific notation** (`d[.ddd]e±kk`): in range, under the margin (and the mantissa
+condition for a negative net exponent), the parser returns the correctly rounded double. -/
+theorem parse_exact_sci (neg : Bool) (d1 : Nat) (ys : List Nat) (eneg : Bool) (ks : List Nat)
+    (h1 : isNonZeroDigit d1 = true) (hys : AllDigits ys) (hy48 : ys ≠ [48]) (hlen : ys.length ≤ 16)
+    (hks : AllDigits ks) (hk0 : ks ≠ []) (hk8 : ks.length ≤ 8)
+    (hm : Margin32 (if eneg then decVal (d1 :: ys) else decVal (d1 :: ys) * 10 ^ decVal ks)
+                   (if eneg then 10 ^ ys.length * 10 ^ decVal ks else 10 ^ ys.length))
+    (hrange : if (netExp false (decVal ks) eneg ys.length).2 then
+                (netExp false (decVal ks) eneg ys.length).1 ≤ 1 + ys.length + 324
+              else (netExp false (decVal ks) eneg ys.length).1 + (1 + ys.length) ≤ 309)
+    (hcond : (netExp false (decVal ks) eneg ys.length).2 = true →
+      ((netExp false (decVal ks) eneg ys.length).1 < 216 ∧
+        2 ^ ((netExp false (decVal ks) eneg ys.length).1 / 27) ≤ 2 * decVal (d1 :: ys)) ∨
+      2 ^ ((netExp false (decVal ks) eneg ys.length).1 / 27 + 1) ≤ decVal (d1 :: ys)) :
+    parseDouble (FmtSpec.signed neg ([d1] ++ (if ys = [] then [] else 46 :: ys) ++ 101 :: (if eneg then 45 else 43) :: ks)) =
+      FmtSpec.readBits64 (FmtSpec.signed neg ([d1] ++ (if ys = [] then [] else 46 :: ys) ++ 101 :: (if eneg then 45 else 43) :: ks)) := by
+  have hdig := isNonZeroDigit_isDigit h1
+  have hd1r : 48 ≤ d1 ∧ d1 ≤ 57 := by simp [isDigit] at hdig; omega
+  have hall : AllDigits (d1 :: ys) := by
+    intro y hy
+    rcases List.mem_cons.1 hy with h | h
+    · subst h; exact hdig
+    · exact hys y h
+  have hrc := readCore_exp neg [d1] ys ks eneg (by simp) (allDigits_fmt (fun y hy => by simp at hy; subst hy; exact hdig))
+    (allDigits_fmt hys) hk0 (allDigits_fmt hks)
+  have hrc' : readCore neg ([d1] ++ (if ys = [] then [] else 46 :: ys) ++ 101 :: (if eneg then 45 else 43) :: ks) =
+      some (neg, (if eneg then decVal (d1 :: ys) else decVal (d1 :: ys) * 10 ^ decVal ks),
+        (if eneg then 10 ^ ys.length * 10 ^ decVal ks else 10 ^ ys.length)) := by
+    rw [hrc]
+    cases eneg <;> simp [digitsValue_eq]
+  have hden : 0 < (if eneg then 10 ^ ys.length * 10 ^ decVal ks else 10 ^ ys.length) := by
+    split
+    · exact Nat.mul_pos (Nat.pow_pos (by decide)) (Nat.pow_pos (by decide))
+    · exact Nat.pow_pos (by decide)
+  have href := readBits64_signed neg _ d1 ((if ys = [] then [] else 46 :: ys) ++ 101 :: (if eneg then 45 else 43) :: ks)
+    (by simp) hd1r _ _ hden hrc'
+  have hv0 : 0 < decVal (d1 :: ys) := Nat.lt_of_lt_of_le (Nat.pow_pos (by decide)) (decVal_ge d1 ys h1)
+  have hvhi := decVal_lt_pow (d1 :: ys) hall
+  have hv64 : decVal (d1 :: ys) < 2 ^ 64 :=
+    Nat.lt_of_lt_of_le hvhi (Nat.le_trans (Nat.pow_le_pow_right (by decide) (by simp; omega)) (by decide : (10 : Nat) ^ 19 ≤ 2 ^ 64))
+  have hk : decVal ks < 10 ^ 8 := Nat.lt_of_lt_of_le (decVal_lt_pow ks hks) (Nat.pow_le_pow_right (by decide) hk8)
+  have hX : (netExp false (decVal ks) eneg ys.length).1 < 2 ^ 31 := by
+    unfold netExp
+    split
+    · simp; omega
+    · split <;> simp <;> omega
+  rw [signed_eq] at href ⊢
+  generalize ht : sgOf neg ++ ([d1] ++ (if ys = [] then [] else 46 :: ys) ++ 101 :: (if eneg then 45 else 43) :: ks) = t at *
+  have hstr := strToNum_sci_eq neg d1 ys eneg ks h1 hys hy48 hlen hks hk0 hk8 t ht.symm
+  exact parse_exact_of_realResult t neg (decVal (d1 :: ys)) (1 + ys.length) _ _ _ _ hstr href hv0 hv64 (by omega) hX
+    (frac_link (decVal (d1 :: ys)) ys.length (decVal ks) eneg) hrange hcond hm
+
+/-- **`%.17g` integers** (`[-]ddd`, at most 17 digits): the parser returns the exact integer and the
+callers' conversion to `double` is the correctly rounded value — no margin needed. -/
+theorem parse_exact_int (neg : Bool) (ds : List Nat) (hds : AllDigits ds) (hne : ds ≠ [])
+    (hlead : ds = [48] ∨ ds.head? ≠ some 48) (hlen : ds.length ≤ 17) :
+    parseDouble (FmtSpec.signed neg ds) = FmtSpec.readBits64 (FmtSpec.signed neg ds) := by
+  obtain ⟨d1, xs, hdseq⟩ : ∃ d1 xs, ds = d1 :: xs := by
+    cases ds with
+    | nil => exact absurd rfl hne
+    | cons a b => exact ⟨a, b, rfl⟩
+  have hd1 : isDigit d1 = true := hds d1 (by rw [hdseq]; simp)
+  have hd1r : 48 ≤ d1 ∧ d1 ≤ 57 := by simp [isDigit] at hd1; omega
+  have hrc : readCore neg ds = some (neg, decVal ds, 1) := by
+    have := readCore_plain neg ds [] hne (allDigits_fmt hds) (by intro c hc; simp at hc)
+    simpa [digitsValue_eq] using this
+  rw [readBits64_signed neg ds d1 xs hdseq hd1r _ _ (by decide) hrc, signed_eq]
+  have hsl : (sgOf neg).length ≤ 1 := by rw [sgOf_len]; cases neg <;> simp [b2n]
+  generalize ht : sgOf neg ++ ds = t
+  have htl : t.length = (sgOf neg).length + ds.length := by rw [← ht]; simp
+  have he : t.length < 2 ^ 32 := by omega
+  have hu : unitsAt t t.length 0 (sgOf neg ++ ds) := by rw [ht]; exact unitsAt_self t
+  by_cases hz : ds = [48]
+  · -- zero
+    subst hz
+    have hz' := int_exact_zero t 0 t.length he
+    cases neg with
+    | false =>
+      simp only [sgOf, Bool.false_eq_true, if_false, List.nil_append] at ht hu htl
+      have h0 : rd t t.length 0 = some 48 := hu.1
+      have := hz'.1 h0 (Or.inl (by simp at htl; omega))
+      unfold parseDouble
+      rw [this]
+      simp at htl
+      simp [htl, decVal, nearestMag]
+    | true =>
+      simp only [sgOf, if_true] at ht hu htl
+      have := hz'.2.2 (by simpa using hu) (Or.inl (by simp at htl; omega))
+      unfold parseDouble
+      rw [this]
+      simp at htl
+      simp [htl, decVal, nearestMag]
+  · have hnz : isNonZeroDigit d1 = true := by
+      rcases hlead with h | h
+      · exact absurd h hz
+      · rw [hdseq] at h
+        simp at h
+        simp [isNonZeroDigit]; omega
+    have hxs : AllDigits xs := fun y hy => hds y (by rw [hdseq]; simp [hy])
+    have hv17 : decVal ds < 10 ^ 17 :=
+      Nat.lt_of_lt_of_le (decVal_lt_pow ds hds) (Nat.pow_le_pow_right (by decide) hlen)
+    have hv63 : decVal ds < 2 ^ 63 := Nat.lt_of_lt_of_le hv17 (by decide)
+    subst hdseq
+    cases neg with
+    | false =>
+      simp only [sgOf, Bool.false_eq_true, if_false, List.nil_append] at ht hu htl
+      have := int_exact_natural t 0 t.length false d1 xs he hnz hxs (by simpa using hu)
+        (Or.inl (by simp [b2n] at htl ⊢; omega)) (by omega)
+      unfold parseDouble
+      rw [this]
+      simp [b2n] at htl ⊢
+      omega
+    | true =>
+      simp only [sgOf, if_true] at ht hu htl
+      have := int_exact_negative t 0 t.length d1 xs he hnz hxs (by simpa using hu)
+        (Or.inl (by simp at htl ⊢; omega)) (by omega)
+      unfold parseDouble
+      rw [this]
+      have hsub : 2 ^ 64 - (2 ^ 64 - decVal (d1 :: xs)) = decVal (d1 :: xs) := by omega
+      simp only [hsub]
+      have hoff : 0 + 2 + xs.length = t.length := by simp at htl; omega
+      simp [hoff]
+
+/-- **`%.17g` small fixed notation** (`0.000ddd`, up to eight zeros after the point): under the margin
+the parser returns the correctly rounded double. -/
+theorem parse_exact_small (neg : Bool) (zs : List Nat) (d1 : Nat) (ys : List Nat) (hz : ∀ z ∈ zs, z = 48)
+    (hzl : zs.length ≤ 8) (h1 : isNonZeroDigit d1 = true) (hys : AllDigits ys) (hlen : ys.length ≤ 16)
+    (hm : Margin32 (decVal (d1 :: ys)) (10 ^ (zs.length + 1 + ys.length))) :
+    parseDouble (FmtSpec.signed neg ([48] ++ 46 :: (zs ++ d1 :: ys))) =
+      FmtSpec.readBits64 (FmtSpec.signed neg ([48] ++ 46 :: (zs ++ d1 :: ys))) := by
+  have hdig := isNonZeroDigit_isDigit h1
+  have hall : AllDigits (d1 :: ys) := by
+    intro y hy
+    rcases List.mem_cons.1 hy with h | h
+    · subst h; exact hdig
+    · exact hys y h
+  have hzd : AllDigits zs := fun z hzm => by rw [hz z hzm]; decide
+  -- reference side
+  have hrc : readCore neg ([48] ++ 46 :: (zs ++ d1 :: ys)) =
+      some (neg, decVal (d1 :: ys), 10 ^ (zs.length + 1 + ys.length)) := by
+    have := readCore_plain neg [48] (zs ++ d1 :: ys) (by simp) (by intro c hc; simp at hc; subst hc; decide)
+      (allDigits_fmt (fun y hy => by
+        rcases List.mem_append.1 hy with h | h
+        · exact hzd y h
+        · exact hall y h))
+    have hne : zs ++ d1 :: ys ≠ [] := by simp
+    simp only [hne, if_false] at this
+    rw [this, digitsValue_eq]
+    have e1 : decVal ([48] ++ (zs ++ d1 :: ys)) = decVal (d1 :: ys) := by
+      rw [show [48] ++ (zs ++ d1 :: ys) = (48 :: zs) ++ d1 :: ys by simp]
+      exact decVal_zeros (48 :: zs) (d1 :: ys) (fun y hy => by
+        rcases List.mem_cons.1 hy with h | h
+        · exact h
+        · exact hz y h)
+    rw [e1]
+    have hl : (zs ++ d1 :: ys).length = zs.length + 1 + ys.length := by simp; omega
+    rw [hl]
+  rw [readBits64_signed neg _ 48 (46 :: (zs ++ d1 :: ys)) (by simp) (by decide) _ _ (Nat.pow_pos (by decide)) hrc]
+  -- parser side
+  rw [signed_eq]
+  have hsl : (sgOf neg).length ≤ 1 := by rw [sgOf_len]; cases neg <;> simp [b2n]
+  generalize ht : sgOf neg ++ ([48] ++ 46 :: (zs ++ d1 :: ys)) = t
+  have ht' : t = sgOf neg ++ ([48, 46] ++ zs ++ d1 :: ys) := by rw [← ht]; simp
+  have htl : t.length = (sgOf neg).length + 2 + zs.length + 1 + ys.length := by rw [ht']; simp; omega
+  have he : t.length < 2 ^ 32 := by omega
+  have hu : unitsAt t t.length 0 (sgOf neg ++ ([48, 46] ++ zs ++ d1 :: ys)) := by rw [← ht']; exact unitsAt_self t
+  have hu' := (unitsAt_append t t.length (sgOf neg) _ 0).1 hu
+  have hu1 : unitsAt t t.length 0 (sgOf neg ++ [48]) :=
+    (unitsAt_append t t.length (sgOf neg) [48] 0).2 ⟨hu'.1, hu'.2.1, trivial⟩
+  have hQ : 0 + (sgOf neg).length + 2 + zs.length + 1 + ys.length = t.length := by omega
+  have hstr : strToNum t 0 t.length = some ⟨.real, nearestMag (decVal (d1 :: ys)) (10 ^ (zs.length + 1 + ys.length)) |||
+      (if neg then 0x8000000000000000 else 0), t.length⟩ := by
+    rw [strToNum_after_sign t 0 t.length (sgOf neg) 48 (sgOf_cases neg) hu1 (by decide), sgOf_dec]
+    rw [afterSign_small t t.length neg (0 + (sgOf neg).length) zs d1 ys he hz h1 hys (by omega) hu'.2 (Or.inl hQ)]
+    rw [finishReal_end t t.length neg _ _ _ _ true true _ (by omega) (Or.inl hQ) (1 + ys.length) (zs.length + 1 + ys.length)
+      (by simp only [b2n, Bool.not_true, Bool.false_and, Bool.false_eq_true, if_false]
+          rw [sub32_sub32 _ _ 0 (by omega) (by omega)]; omega)
+      (by simp only [if_true]
+          rw [sub32_sub32 _ _ 1 (by omega) (by omega), add32_eq _ _ (by omega)]; omega)
+      (by omega)]
+    have hne : netExp true 0 false (zs.length + 1 + ys.length) = (zs.length + 1 + ys.length, true) := by
+      unfold netExp; simp
+    rw [hne, hQ]
+    have hv0 : 0 < decVal (d1 :: ys) := Nat.lt_of_lt_of_le (Nat.pow_pos (by decide)) (decVal_ge d1 ys h1)
+    have hvhi := decVal_lt_pow (d1 :: ys) hall
+    have hv64 : decVal (d1 :: ys) < 2 ^ 64 :=
+      Nat.lt_of_lt_of_le hvhi (Nat.le_trans (Nat.pow_le_pow_right (by decide) (by simp; omega)) (by decide : (10 : Nat) ^ 19 ≤ 2 ^ 64))
+    have := realResult_exact neg (decVal (d1 :: ys)) (1 + ys.length) (zs.length + 1 + ys.length) true t.length hv0 hv64
+      (by omega) (by omega) (by simp only [if_true]; omega)
+      (fun _ => Or.inl ⟨by omega, by
+        have : (zs.length + 1 + ys.length) / 27 = 0 := by omega
+        rw [this]; omega⟩)
+      (by simp only [if_true]; exact hm)
+    simpa using this
+  exact parseDouble_real t _ neg (Nat.lt_of_le_of_lt (nearestMag_le_inf _ _) (by decide)) hstr
+
+/-! ### The class: `%.17g` texts
+
+`Text17 t` — the shapes `FmtSpec.generalBody … 17` produces after trailing-zero stripping, with the
+side conditions the parser-side proof needs for the scientific shape (finite range, and for a
+negative net exponent a mantissa that is not tiny: `2^(X/27) ≤ 2·v` when `X < 216`, else
+`2^(X/27+1) ≤ v`). `fixed`/`small`/`int` need no side condition. -/
 inductive Text17 : List Nat → Prop
   /-- `[-]ddd` — an integer of at most 17 digits (`0`, or no leading zero) -/
-  | int (sg ds : List Nat) : (sg = [] ∨ sg = [45]) → allDigits ds → ds ≠ [] → (ds = [48] ∨ ds.head? ≠ some 48) →
-      ds.length ≤ 17 → Text17 (sg ++ ds)
-  /-- `[-]d…d.d…d` — integer part without leading zero, at most 17 digits in all, last digit not `0` -/
-  | fixed (sg : List Nat) (d1 : Nat) (xs ys : List Nat) : (sg = [] ∨ sg = [45]) → (49 ≤ d1 ∧ d1 ≤ 57) →
-      allDigits xs → allDigits ys → ys ≠ [] → ys.getLast? ≠ some 48 → xs.length + 1 + ys.length ≤ 17 →
-      Text17 (sg ++ d1 :: xs ++ [46] ++ ys)
-  /-- `[-]0.0…0d…d` — at most three zeros after the point, then at most 17 digits, first and last not `0` -/
-  | small (sg zs : List Nat) (d1 : Nat) (ys : List Nat) : (sg = [] ∨ sg = [45]) → (∀ z ∈ zs, z = 48) → zs.length ≤ 3 →
-      (49 ≤ d1 ∧ d1 ≤ 57) → allDigits ys → (d1 :: ys).getLast? ≠ some 48 → 1 + ys.length ≤ 17 →
-      Text17 (sg ++ [48, 46] ++ zs ++ d1 :: ys)
-  /-- `[-]d[.d…d]e±dd[d]` — scientific, at least two exponent digits -/
-  | sci (sg : List Nat) (d1 : Nat) (ys es ks : List Nat) : (sg = [] ∨ sg = [45]) → (49 ≤ d1 ∧ d1 ≤ 57) →
-      allDigits ys → ys.getLast? ≠ some 48 → 1 + ys.length ≤ 17 → (es = [43] ∨ es = [45]) → allDigits ks →
-      2 ≤ ks.length → ks.length ≤ 3 →
-      Text17 (sg ++ d1 :: (if ys = [] then [] else 46 :: ys) ++ [101] ++ es ++ ks)
+  | int (neg : Bool) (ds : List Nat) : AllDigits ds → ds ≠ [] → (ds = [48] ∨ ds.head? ≠ some 48) → ds.length ≤ 17 →
+      Text17 (FmtSpec.signed neg ds)
+  /-- `[-]d…d.d…d` — no leading zero, at most 17 digits, the fraction is not the single digit `0` -/
+  | fixed (neg : Bool) (d1 : Nat) (xs ys : List Nat) : isNonZeroDigit d1 = true → AllDigits xs → AllDigits ys → ys ≠ [] →
+      ys ≠ [48] → xs.length + 1 + ys.length ≤ 17 → Text17 (FmtSpec.signed neg (d1 :: xs ++ [46] ++ ys))
+  /-- `[-]0.0…0d…d` — at most eight zeros after the point, then at most 17 digits, the first not `0` -/
+  | small (neg : Bool) (zs : List Nat) (d1 : Nat) (ys : List Nat) : (∀ z ∈ zs, z = 48) → zs.length ≤ 8 →
+      isNonZeroDigit d1 = true → AllDigits ys → 1 + ys.length ≤ 17 →
+      Text17 (FmtSpec.signed neg ([48] ++ 46 :: (zs ++ d1 :: ys)))
+  /-- `[-]d[.d…d]e±k…` — scientific: in range, mantissa not tiny when the net exponent is negative -/
+  | sci (neg : Bool) (d1 : Nat) (ys : List Nat) (eneg : Bool) (ks : List Nat) : isNonZeroDigit d1 = true → AllDigits ys →
+      ys ≠ [48] → 1 + ys.length ≤ 17 → AllDigits ks → ks ≠ [] → ks.length ≤ 8 →
+      (if (netExp false (decVal ks) eneg ys.length).2 then
+          (netExp false (decVal ks) eneg ys.length).1 ≤ 1 + ys.length + 324
+        else (netExp false (decVal ks) eneg ys.length).1 + (1 + ys.length) ≤ 309) →
+      ((netExp false (decVal ks) eneg ys.length).2 = true →
+        ((netExp false (decVal ks) eneg ys.length).1 < 216 ∧
+          2 ^ ((netExp false (decVal ks) eneg ys.length).1 / 27) ≤ 2 * decVal (d1 :: ys)) ∨
+        2 ^ ((netExp false (decVal ks) eneg ys.length).1 / 27 + 1) ≤ decVal (d1 :: ys)) →
+      Text17 (FmtSpec.signed neg ([d1] ++ (if ys = [] then [] else 46 :: ys) ++ 101 :: (if eneg then 45 else 43) :: ks))
+
+/-- the margin hypothesis on a text, through the reference reader -/
+def MarginText (t : List Nat) : Prop :=
+  ∀ neg num den, FmtSpec.readDecimal t = some (neg, num, den) → num ≠ 0 → Margin32 num den
+
+theorem readDecimal_of_core (neg : Bool) (body : List Nat) (x : Nat) (rest : List Nat) (hbody : body = x :: rest)
+    (hx : 48 ≤ x ∧ x ≤ 57) (r : Bool × Nat × Nat) (hrc : readCore neg body = some r) :
+    FmtSpec.readDecimal (FmtSpec.signed neg body) = some r := by
+  rw [readDecimal_signed neg body (by intro r' h; rw [hbody] at h; simp only [List.cons.injEq] at h; omega), hrc]
+
+/-- **C11, parser half, for the class `Text17`**: on every `%.17g`-shaped text whose value keeps
+1/32 ulp away from the rounding boundaries, `Digit::StringToNumber` (followed by the callers'
+integer→double conversion) returns exactly the correctly rounded double of the reference reader. -/
+theorem parse_exact17 (t : List Nat) (ht : Text17 t) (hm : MarginText t) : parseDouble t = FmtSpec.readBits64 t := by
+  cases ht with
+  | int neg ds hds hne hlead hlen => exact parse_exact_int neg ds hds hne hlead hlen
+  | fixed neg d1 xs ys h1 hxs hys hy0 hy48 hlen =>
+    have hdig := isNonZeroDigit_isDigit h1
+    have hrc : readCore neg (d1 :: xs ++ [46] ++ ys) = some (neg, decVal (d1 :: xs ++ ys), 10 ^ ys.length) := by
+      have := readCore_plain neg (d1 :: xs) ys (by simp) (allDigits_fmt (fun y hy => by
+        rcases List.mem_cons.1 hy with h | h
+        · subst h; exact hdig
+        · exact hxs y h)) (allDigits_fmt hys)
+      simp only [hy0, if_false] at this
+      rw [← digitsValue_eq]
+      simpa using this
+    have hrd := readDecimal_of_core neg _ d1 (xs ++ [46] ++ ys) (by simp) (by simp [isDigit] at hdig; omega) _ hrc
+    have hv0 : decVal (d1 :: xs ++ ys) ≠ 0 := by
+      have h2 := decVal_ge d1 (xs ++ ys) h1
+      have h3 : 0 < 10 ^ (xs ++ ys).length := Nat.pow_pos (by decide)
+      have h4 : decVal (d1 :: xs ++ ys) = decVal (d1 :: (xs ++ ys)) := by simp
+      omega
+    exact parse_exact_fixed neg d1 xs ys h1 hxs hys hy0 hy48 (by omega) (hm _ _ _ hrd hv0)
+  | small neg zs d1 ys hz hzl h1 hys hlen =>
+    have hdig := isNonZeroDigit_isDigit h1
+    have hall : AllDigits (d1 :: ys) := by
+      intro y hy
+      rcases List.mem_cons.1 hy with h | h
+      · subst h; exact hdig
+      · exact hys y h
+    have hzd : AllDigits zs := fun z hzm => by rw [hz z hzm]; decide
+    have hrc : readCore neg ([48] ++ 46 :: (zs ++ d1 :: ys)) =
+        some (neg, decVal (d1 :: ys), 10 ^ (zs.length + 1 + ys.length)) := by
+      have := readCore_plain neg [48] (zs ++ d1 :: ys) (by simp) (by intro c hc; simp at hc; subst hc; decide)
+        (allDigits_fmt (fun y hy => by
+          rcases List.mem_append.1 hy with h | h
+          · exact hzd y h
+          · exact hall y h))
+      have hne : zs ++ d1 :: ys ≠ [] := by simp
+      simp only [hne, if_false] at this
+      rw [this, digitsValue_eq]
+      have e1 : decVal ([48] ++ (zs ++ d1 :: ys)) = decVal (d1 :: ys) := by
+        rw [show [48] ++ (zs ++ d1 :: ys) = (48 :: zs) ++ d1 :: ys by simp]
+        exact decVal_zeros (48 :: zs) (d1 :: ys) (fun y hy => by
+          rcases List.mem_cons.1 hy with h | h
+          · exact h
+          · exact hz y h)
+      rw [e1]
+      have hl : (zs ++ d1 :: ys).length = zs.length + 1 + ys.length := by simp; omega
+      rw [hl]
+    have hrd := readDecimal_of_core neg _ 48 (46 :: (zs ++ d1 :: ys)) (by simp) (by decide) _ hrc
+    have hv0 : decVal (d1 :: ys) ≠ 0 := by
+      have := decVal_ge d1 ys h1
+      have : 0 < 10 ^ ys.length := Nat.pow_pos (by decide)
+      omega
+    exact parse_exact_small neg zs d1 ys hz hzl h1 hys (by omega) (hm _ _ _ hrd hv0)
+  | sci neg d1 ys eneg ks h1 hys hy48 hlen hks hk0 hk8 hrange hcond =>
+    have hdig := isNonZeroDigit_isDigit h1
+    have hrc := readCore_exp neg [d1] ys ks eneg (by simp) (allDigits_fmt (fun y hy => by simp at hy; subst hy; exact hdig))
+      (allDigits_fmt hys) hk0 (allDigits_fmt hks)
+    have hrc' : readCore neg ([d1] ++ (if ys = [] then [] else 46 :: ys) ++ 101 :: (if eneg then 45 else 43) :: ks) =
+        some (neg, (if eneg then decVal (d1 :: ys) else decVal (d1 :: ys) * 10 ^ decVal ks),
+          (if eneg then 10 ^ ys.length * 10 ^ decVal ks else 10 ^ ys.length)) := by
+      rw [hrc]
+      cases eneg <;> simp [digitsValue_eq]
+    have hrd := readDecimal_of_core neg _ d1 ((if ys = [] then [] else 46 :: ys) ++ 101 :: (if eneg then 45 else 43) :: ks)
+      (by simp) (by simp [isDigit] at hdig; omega) _ hrc'
+    have hv0 : 0 < decVal (d1 :: ys) := Nat.lt_of_lt_of_le (Nat.pow_pos (by decide)) (decVal_ge d1 ys h1)
+    have hnum0 : (if eneg then decVal (d1 :: ys) else decVal (d1 :: ys) * 10 ^ decVal ks) ≠ 0 := by
+      split
+      · omega
+      · exact Nat.ne_of_gt (Nat.mul_pos hv0 (Nat.pow_pos (by decide)))
+    exact parse_exact_sci neg d1 ys eneg ks h1 hys hy48 (by omega) hks hk0 hk8 (hm _ _ _ hrd hnum0) hrange hcond
+
+/-! ### Towards `ParsesExactly17` (Props/C11.lean)
+
+`ParsesExactly17 parseDouble` is: for every finite `b` with `format17 b = .ok t`,
+`parseDouble t = FmtSpec.readBits64 t`. `parse_exact17` proves the conclusion from two facts about
+`t` alone; what remains is formatter-side (notes/c11-interface.md): every `%.17g` text is a `Text17`
+and keeps the 1/32-ulp margin. -/
+open Qentem.NumToStr in
+theorem parsesExactly17_partial (b : Nat) (t : List Nat) (_hb : Qentem.Props.C11.isFinite64 b)
+    (_hf : format17 b = .ok t) (ht : Text17 t) (hm : MarginText t) :
+    parseDouble t = FmtSpec.readBits64 t := parse_exact17 t ht hm
+
+open Qentem.NumToStr in
+/-- the reduction: shape + margin for every formatted text give the parser half of C11, and with it
+the whole round trip through the real parser -/
+theorem roundtrip17_of_formatter
+    (h : ∀ b t, Qentem.Props.C11.isFinite64 b → format17 b = .ok t → Text17 t ∧ MarginText t) :
+    Qentem.Props.C11.ParsesExactly17 parseDouble ∧ Qentem.Props.C11.RoundTrip17 parseDouble := by
+  have hp : Qentem.Props.C11.ParsesExactly17 parseDouble := fun b t hb hf =>
+    parse_exact17 t (h b t hb hf).1 (h b t hb hf).2
+  exact ⟨hp, Qentem.Props.C11.roundtrip17_of_parser parseDouble hp⟩
+
+/-- instances (kernel evaluation, tests): the `%.17g` texts of 0.1, 1/3, 5e-324, 1.7976931348623157e308,
+123456.78900000001 parse back to their bit patterns -/
+example : parseDouble [48,46,49,48,48,48,48,48,48,48,48,48,48,48,48,48,48,48,49] = some 0x3FB999999999999A := by decide +kernel
+example : parseDouble [48,46,51,51,51,51,51,51,51,51,51,51,51,51,51,51,51,51,49] = some 0x3FD5555555555555 := by decide +kernel
+example : parseDouble [52,46,57,52,48,54,53,54,52,53,56,52,49,50,52,54,53,52,101,45,51,50,52] = some 1 := by decide +kernel
+example : parseDouble [49,46,55,57,55,54,57,51,49,51,52,56,54,50,51,49,53,55,101,43,51,48,56] = some 0x7FEFFFFFFFFFFFFF := by decide +kernel
+example : Text17 [51,46,49,52] := Text17.fixed false 51 [] [49,52] (by decide) (by intro y hy; simp at hy)
+  (by intro y hy; simp at hy; rcases hy with h | h <;> subst h <;> decide) (by simp) (by simp) (by simp)
 
 end Qentem.Props.C11P
